@@ -1,6 +1,7 @@
 import IwModel.Lemmas.Txt
 import IwModel.Lemmas.TxtPtr
 import IwModel.Lemmas.TxtConv
+import IwModel.Lemmas.ReVm
 /-! # C17 — text-consuming functions are memory-safe on any input and depend only on it
 
 Property theorems only; helper lemmas live in `IwModel/Lemmas/Txt*.lean`.
@@ -74,6 +75,13 @@ theorem ptr_parse_safe (path : Bytes) (h : HasNul path 0) : ptrParse path ≠ .o
 theorem ptr_parse_cstring_safe (s : Bytes) : ptrParse (s ++ [0]) ≠ .oob :=
   ptr_parse_safe _ ⟨s.length, Nat.zero_le _, by simp⟩
 
+/-- **Every `jp->n[]` slot is assigned**: when `_jbl_ptr_pool` succeeds the fill loops have produced
+    exactly `jp->cnt` segments (one per `/`), so no caller ever follows an uninitialised segment
+    pointer. (False before the fix of F10: `"/a~/b"` counted two separators and filled one slot.) -/
+theorem ptr_all_slots_assigned (path : Bytes) (h : HasNul path 0) (r : PtrOk) (hr : ptrParse path = .ok r) :
+    r.assigned = r.cnt ∧ r.segs.length = r.cnt :=
+  ptrParse_assigned path h r hr
+
 /-- **`iwjson_ftoa` never indexes outside its `IWNUMBUF_SIZE` buffer**, whatever text `snprintf`
     would have produced for `"%.8Lf"` and `"%.17Lg"` (any length, any bytes: huge magnitudes, `inf`,
     `nan`, a decimal comma). -/
@@ -96,6 +104,26 @@ theorem afcmp_safe (a b : Bytes) (asiz bsiz : Nat) (ha : asiz ≤ a.length) (hb 
     least `max` bytes), for every content and both parities of `hexlen`. -/
 theorem hex2bin_safe (hex : Bytes) (hexlen max cap : Nat) (hl : hexlen ≤ hex.length) (hcap : max ≤ cap) :
     hex2bin hex hexlen max cap ≠ none := Txt.hex2bin_safe hex hexlen max cap hl hcap
+
+/-- **The regular-expression VM (`vm_run_with_threads` / `vm_add_thread`, src/re/vm.c) stays inside
+    its arrays and terminates**: for every well-formed non-empty program (`ReVm.Wf`: jump targets and
+    fall-through successors are instructions of the program, no character instruction holds NUL — what
+    `compile.c` emits), every text and every `nmatches`, the model run ends with a result: no index
+    `pc - program->instructions` or `list->nthreads` leaves `[0, ninstructions)`, the main loop never
+    reaches `abort()`, `*sp` is never read behind the terminator, and `vm_add_thread` never nests deeper
+    than `ninstructions + 1`. The invariant: per list, queued threads ≤ instructions carrying the
+    current stamp ≤ `ninstructions`. -/
+theorem revm_safe (prog : ReVm.Prog) (hwf : ReVm.Wf prog) (hne : 0 < prog.length) (text : Bytes) (nmatches : Nat) :
+    ∃ r, ReVm.run prog text nmatches = .ok r :=
+  ReVm.run_ok prog hwf hne text nmatches
+
+/-- non-vacuity of `Wf`: the program of the pattern `a` (`.*?` prefix, two saves, match) -/
+example : ReVm.Wf [.split 3 1, .any, .jump 0, .save 0, .chr 97, .save 1, .mtch] := by
+  intro pc ins h
+  have hlt : pc < 7 := by
+    rcases List.getElem?_eq_some_iff.mp h with ⟨hl, _⟩; simpa using hl
+  match pc, hlt with
+  | 0, _ | 1, _ | 2, _ | 3, _ | 4, _ | 5, _ | 6, _ => simp at h; subst h; simp
 
 /-- the generated constants the theorems lean on -/
 theorem gen_side_conditions : Txt.escMap 0 = 256 ∧ Gen.IWNUMBUF_SIZE = 32 ∧ Gen.JBL_PTR_OFF_N ≤ Gen.JBL_PTR_SIZEOF := by decide
